@@ -86,22 +86,16 @@ def ret_truth(seg):
     r = seg.ret
     if isinstance(r, tuple) and r[0] == 'bool':
         return r[1]
+    if isinstance(r, tuple) and r and r[0] in ('cmp', 'not', 'pred', 'hasval'):
+        return seg.decided(r)       # `return present;` where the path branched on that very condition
     return None
 
 
 def tally_info(top, body):
-    """for a loop-iteration body: (tally variable name returned by the method, increments in this iteration)"""
-    ret = top.ret
-    name = None
-    if isinstance(ret, tuple) and ret[0] == 'lv':
-        name = ret[1]
-    elif isinstance(ret, tuple) and ret[0] == 'var':
-        name = ret[1]
-    incs = []
-    for e in body.seg.effects:
-        if e.kind == 'LOCAL' and isinstance(e.loc, tuple) and e.loc[0] == 'var' and e.loc[1] == name:
-            incs.append(e)
-    return name, incs
+    """for a loop-iteration body: (tally variable returned by the method, its writes in this iteration)"""
+    var = ops.tally_var(top.ret)
+    incs = ops.local_writes(body.seg, var) if var is not None else []
+    return var, incs
 
 
 # ---------------------------------------------------------------------------------------------- C09 + C19
@@ -264,7 +258,7 @@ def rule_insert_table(an, res, prop):
                         for e in incs:
                             if e.how == 'decl':
                                 continue
-                            if isinstance(e.val, tuple) and e.val[0] == 'add' and e.val[2] == 1 and e.val[1][0] == 'lv' and e.val[1][1] == name:
+                            if ops.is_increment(e, name):
                                 n_inc += 1
                             else:
                                 good = False
@@ -281,10 +275,10 @@ def rule_insert_table(an, res, prop):
                           first_site(effs, seg, m), 'rejected insert [%s] has effects %s' % (val, [repr(e) for e in effs][:4]))
             # tally plumbing of the range method itself
             if prop == 'C09' and any(b.in_loop is not None for b in bodies):
-                name = top.ret[1] if isinstance(top.ret, tuple) and top.ret[0] in ('lv', 'var') else None
-                init = [e for e in top.effects if e.kind == 'LOCAL' and e.how == 'decl' and e.loc[1] == name]
+                name = ops.tally_var(top.ret)
+                init = ops.local_writes(top, name, decl=True)
                 ok = name is not None and len(init) == 1 and init[0].val == ('int', 0)
-                post = [e for e in top.effects if e.kind == 'LOCAL' and e.how != 'decl' and e.loc[1] == name]
+                post = ops.local_writes(top, name, decl=False)
                 ok = ok and not post
                 res.ob('R-TALLY', ok=ok)
                 if not ok:
@@ -471,7 +465,7 @@ def check_bound(res, prop, cm, roles, m, seg):
     cnt0 = True
     for k, i in seg.order:
         if k == 'cond':
-            kind, args, truth, site, raw = seg.conds[i]
+            kind, args, truth, site, raw, rawtruth = seg.conds[i]
             if not cnt0:
                 continue          # tests after the counter changed speak about a different value
             if kind == 'FULL':
@@ -712,6 +706,10 @@ def check_removals(res, prop, cm, roles, m, k, seg):
                     hk = [c for c in seg.conds if c[0] == 'HASKEY' and c[2]]
                     if hk and same_ent(hk[0][1][0], ent) and ent.kind in POLICY_VICTIMS['fifo_cache']:
                         lic = 'fifo recycles the head node which holds a key'
+                elif full is True and roles.name == 'rr_cache' and ent.kind == 'RAWRNG':
+                    from rules_misc import raw_draw_is_bound_slot
+                    if raw_draw_is_bound_slot(seg, ent):
+                        lic = 'full insert evicts a uniformly drawn slot (all slots are bound when full)'
                 elif full is True and ent.kind in POLICY_VICTIMS[roles.name]:
                     if ent.kind == 'AUXHEAD' and roles.aux_kind.get(ent.arg) == 'ttl':
                         # expired-first: only when the head is expired
